@@ -183,6 +183,10 @@ def points(tier):
         for mn in ("API", "UWI", "api", "Uwi", "Api"):
             for a in ALPHA:
                 pts.append(["seam", seam, mn, a, 2])
+        # names that merely begin or end like API / UWI are ordinary items
+        for mn in ("APIN", "API2", "apig", "XAPI", "UWIX", "XUWI", "uwi2", "A", "U"):
+            for a in ALPHA:
+                pts.append(["seam", seam, mn, a, 1])
     if tier == "thorough":
         for seam in ("well20", "param20"):
             for pre in itertools.product(ALPHA_T, repeat=3):
@@ -204,6 +208,9 @@ def points(tier):
                     pts.append(["read", sec, mn, chunk, "comma-delimiter"])
                     # the file declares DLM COMMA / TAB for its data section: header values are judged as before
                     pts.append(["read", sec, mn, chunk, "dlm-comma"])
+                    if sec != "Version" and chunk % (3 * CHUNK) == 0:
+                        # a file WITHOUT a ~Version section, read into an object that has read a LAS 1.2 file before
+                        pts.append(["read", sec, mn, chunk, "reuse12"])
                     if chunk % (4 * CHUNK) == 0:
                         pts.append(["read", sec, mn, chunk, "dlm-tab"])
     # the items lasio itself looks at after parsing (NULL, STRT, STOP, STEP): one value per file, traps and short strings
@@ -275,7 +282,7 @@ READ_SECS = {
 
 
 RKW = {None: {}, "nopolicy": {"read_policy": (), "null_policy": "none"}, "comma-delimiter": {"read_policy": "comma-delimiter"},
-       "dlm-comma": {}, "dlm-tab": {}}
+       "dlm-comma": {}, "dlm-tab": {}, "reuse12": {}}
 
 
 def run_read(sec, mnemonic, chunk, policy=None):
@@ -294,7 +301,14 @@ def run_read(sec, mnemonic, chunk, policy=None):
     text += "~ASCII\n"
     vio = []
     try:
-        las = lasio.read(text, mnemonic_case="preserve", ignore_data=True, **RKW[policy])
+        if policy == "reuse12":
+            import io
+            text = text[len(head):]
+            las = lasio.LASFile()
+            las.read(io.StringIO("~V\nVERS. 1.2 : v\nWRAP. NO : w\n~W\nSTRT.M 1 : s\nSTOP.M 2 : s\nSTEP.M 1 : s\nNULL. -999.25 : n\nCOMP. company : ACME\n~C\nD.M : d\n~A\n1\n2\n"))
+            las.read(io.StringIO(text), mnemonic_case="preserve", ignore_data=True)
+        else:
+            las = lasio.read(text, mnemonic_case="preserve", ignore_data=True, **RKW[policy])
         key = {"Well": "Well", "Parameter": "Parameter", "Version": "Version", "custom": "Xtra stuff", "Curves": "Curves",
                "Parameter_": "Parameter", "Curves_": "Curves", "Well_": "Well"}[sec]
         if sec.endswith("_") and not len(las.sections.get(key, [])):
